@@ -26,4 +26,4 @@ def search(tier, rng):
             d = (rng.randrange(-7, 8), rng.randrange(-7, 8))
         else:
             d = (rng.randrange(-2000, 2001), rng.randrange(-2000, 2001))
-        yield J('p_translate', *d, zoo_case(rng, fam))
+        yield J('p_translate', *d, zoo_case(rng, fam, dotted=True))
